@@ -64,6 +64,7 @@ partial def parseTerm (j : Json) : Except String Term := do
       else if std && op.startsWith "Reduce" && args.length == 1 &&
           ((j.getObjVal? "axes").toOption.bind natList?).isSome then
         .reduce (op ++ "|" ++ attrs) (((j.getObjVal? "axes").toOption.bind natList?).getD [])
+      else if std && op == "Reshape" && args.length == 2 && attrs == "" then .reshape
       else if std && op == "CastLike" && args.length == 2 then .castLike
       else if std && op == "Identity" && args.length == 1 then .identity
       else if std && pointwiseOps.contains op && idx == 0 then .pw op attrs
